@@ -22,5 +22,6 @@ PROP = dict(
         H(NP, "c02", "c02_change_desired", "change_desired_frequency: same bound; slew frequency becomes the requested one", timeout=300),
         H(NP, "c02", "c02_time_update", "time_update (end of slew): same bound, slew frequency back to 0", timeout=300),
         H(NP, "c02", "c02_slew", "steer_offset slew branch: same bound and |extra slew frequency| <= slew_maximum_frequency_offset", timeout=300),
-    ],
+        H("np_algo_h", "c02", "c02_startup", "new() + take_control() with an arbitrary kernel frequency: nothing outside +-max is applied", timeout=600),
+],
 )
